@@ -98,6 +98,46 @@ def gen_entry_hooks(overlay):
         overlay[src] = out
 
 
+# --------------------------------------------------------------------------
+# yield points: text substitutions in the *current* file that hand control to the
+# simulator's scheduler inside an operation (off unless a world installs VerifYield).
+# A substitution with min=0 may legitimately find nothing (the code under test may
+# have dropped the lock); the insertions the schedule search depends on have min>0.
+YIELD_PATCHES = [
+    dict(
+        file="internal/storage/inmem/store.go",
+        subs=[
+            (r"^(\s*)s\.eventLock\.Lock\(\)\s*$", r"\1verifLock(&s.eventLock)", 0),
+            (r"^(\s*)tx\.Commit\(\)\s*$", r'\1tx.Commit()\n\1verifYield("committed")', 2),
+        ],
+    ),
+    dict(
+        file="internal/storage/inmem/snapshot.go",
+        subs=[
+            (r"^(\s*)r\.s\.eventLock\.Lock\(\)\s*$", r"\1verifLock(&r.s.eventLock)", 0),
+        ],
+    ),
+]
+
+
+def gen_yield_patches(overlay):
+    outdir = os.path.join(BUILD, "patched")
+    os.makedirs(outdir, exist_ok=True)
+    for h in YIELD_PATCHES:
+        src = os.path.join(REPO, h["file"])
+        try:
+            text = open(src).read()
+        except OSError as e:
+            raise BuildError(f"yield patch: cannot read {src}: {e}")
+        for rx, repl, minimum in h["subs"]:
+            text, n = re.subn(rx, repl, text, flags=re.M)
+            if n < minimum:
+                raise BuildError(f"yield patch site {rx!r} found {n} times in {h['file']} (need {minimum})")
+        out = os.path.join(outdir, h["file"].replace("/", "__"))
+        write_if_changed(out, text)
+        overlay[src] = out
+
+
 def write_if_changed(path, content):
     try:
         if open(path).read() == content:
@@ -142,6 +182,7 @@ def gen_overlay():
             raise BuildError(f"shim target dir missing: {tgt}")
         overlay[os.path.join(tgt, "zz_verif_" + f)] = p
     gen_entry_hooks(overlay)
+    gen_yield_patches(overlay)
     write_if_changed(
         os.path.join(BUILD, "overlay.json"),
         json.dumps({"Replace": overlay}, indent=1, sort_keys=True),
